@@ -252,11 +252,9 @@ def run(ck, m):
                 ck.ob("R3", enclosing_stmt(c), False, f"{q_} chooses a render method itself (`{short(c, 50)}`): the method used must be the per-call override or else the effective (instance -> class -> default) one",
                       stmt=f"{q_}: no programmatic method override")
     # ---- shared with C09.R5: ImageIterator never rebinds the style arguments it renders frames with
-    from tiv.report import Scoped
+    from tiv.report import borrow
     import rules.c09 as c09
-    sc9 = Scoped(ck, "R3", lambda c: c.endswith("ImageIterator._animate"), rids={"R5"})
-    c09.run(sc9, m)
-    ck.expect(sc9.kept >= 4, f"expected the ImageIterator cache obligations of C09.R5 (got {sc9.kept})")
+    borrow(ck, c09, m, "R3", lambda c: c.endswith("ImageIterator._animate"), rids={"R5"}, min_kept=4)
 
 
 MUTANTS = [
